@@ -369,8 +369,11 @@ def _detector(c, case):
         c.prove("t >= max_steps => stop", z3.Implies(t >= mx_eff, z3.Not(cont)), assume, replay, key=kmax)
     c.prove("t >= total steps (>= min_steps) => stop", z3.Implies(z3.And(t >= T, mn_eff <= T), z3.Not(cont)), assume, replay, key=f"detector:total-steps:{tag}")
     c.prove("t < min_steps => continue", z3.Implies(t < mn_eff, cont), assume, replay, key=f"detector:min_steps:{tag}")
-    c.witness("twin: continues between min and max", z3.And(t >= mn_eff, t < mx_eff, cont), assume)
-    c.witness("twin: stops between min and max (converged)", z3.And(t >= mn_eff, t < mx_eff, z3.Not(cont), thr > 0), assume)
+    # vacuity twins on guided sub-domains (existence claims: restricting the trace is sound and keeps z3 away from a
+    # free search through the sqrt terms): a non-periodic trace keeps running, an exactly periodic one has converged
+    periodic = [thr == 1] + [R[i, 0] == Fraction((i % spp) * (i % spp) + 1, 4) for i in range(T)]
+    c.witness("twin: continues between min and max (non-periodic trace)", z3.And(t >= mn_eff, t < mx_eff, t < T, cont), assume + guide)
+    c.witness("twin: stops between min and max (periodic trace has converged)", z3.And(t >= mn_eff, t < mx_eff, t < T, z3.Not(cont)), assume + periodic)
     if spp == 2:
         # value of the convergence test (spp = 2: every rfft bin is real, the distance has no inner sqrt; spp = 4 was tried: z3 'unknown'), per query time (t substituted into the one symbolic-time interpretation)
         Rf = R[:, 0]
